@@ -48,8 +48,10 @@ theorem attemptAddition_heap_eq (r : Nat) (s : State) :
   unfold attemptAddition
   simp only []
   split
-  · rw [hsp.1, h1]
-  · simp only []; rw [hsp.1, h1]
+  · rfl
+  · split
+    · rw [hsp.1, h1]
+    · simp only []; rw [hsp.1, h1]
 
 /-- the heap after a member's turn: only its pre-selection `to_add_atoms` is cleared -/
 theorem addNext_heap (r : Nat) (s : State) : (addNext r s).heap = s.heap.set r { s.obj r with toAdd := none } := by
